@@ -34,6 +34,7 @@ type Sub struct {
 	data   map[string][]byte // destination store: cid.KeyString -> bytes
 	Writes int
 	Hooks  []HookCall
+	Scoped []HookCall // calls of hooks handed out by ScopedHook
 	Events []dagsync.SyncFinished // reference listener, registered at construction
 	evDone chan struct{}
 	cancel context.CancelFunc
@@ -146,6 +147,25 @@ func (s *Sub) NextOf(c cid.Cid) cid.Cid {
 		}
 	}
 	return cid.Undef
+}
+
+// ScopedHook returns a block hook for one call (dagsync.ScopedBlockHook) that logs into a separate list and
+// keeps the segmented-sync contract like the general hook.
+func (s *Sub) ScopedHook() dagsync.BlockHookFunc {
+	return func(p peer.ID, c cid.Cid, act dagsync.SegmentSyncActions) {
+		s.mu.Lock()
+		s.Scoped = append(s.Scoped, HookCall{Seq: len(s.Scoped), Peer: p, Cid: c, Act: s.W.activity.Load()})
+		s.mu.Unlock()
+		s.W.Bump()
+		act.SetNextSyncCid(s.NextOf(c))
+	}
+}
+
+// ScopedCalls returns a copy of the scoped-hook log.
+func (s *Sub) ScopedCalls() []HookCall {
+	s.mu.Lock()
+	defer s.mu.Unlock()
+	return append([]HookCall(nil), s.Scoped...)
 }
 
 // ArmHook resets the hook ordinal; failAt < 0 disables the injected failure.
